@@ -99,6 +99,8 @@ class Ctx:
         self.rng_draws = 0
         self.hash_order = machine.hash_order
         self.decided = {}      # z3 ast id -> decision taken on this path
+        self.use_cvc5 = False  # decide every query of this path with cvc5 (floating-point heavy harness modes)
+        self.ext_model = None
         self.concrete = None   # dict of concrete inputs (translator validation / concrete replay)
         self.outputs = None    # dict collecting outputs in concrete mode
         self.sample = None
@@ -107,12 +109,111 @@ class Ctx:
     # ---- solver helpers
     def _check(self, *extra):
         t0 = time.time()
-        r = self.solver.check(*extra)
+        self.ext_model = None
+        if self.use_cvc5:
+            r = self._check_cvc5(extra)
+        else:
+            r = self.solver.check(*extra)
+            if r == z3.unknown and self.m.cvc5_fallback:
+                r = self._check_cvc5(extra)
         self.stats.solver_checks += 1
         self.stats.solver_time += time.time() - t0
         if r == z3.unknown:
             self.unknown = True
         return r
+
+    def _check_cvc5(self, extra):
+        """Decide the current path condition (+extra) with cvc5 (much faster than z3 on IEEE-754 mul/div).
+        On sat the values of all free constants are read back and kept as a z3 model substitute."""
+        import subprocess, tempfile, os
+        s2 = z3.Solver()
+        s2.add(self.solver.assertions())
+        for e in extra:
+            s2.add(e)
+        consts = {}
+
+        def collect(t):
+            stack = [t]
+            seen = set()
+            while stack:
+                x = stack.pop()
+                if x.get_id() in seen:
+                    continue
+                seen.add(x.get_id())
+                if z3.is_const(x) and x.decl().kind() == z3.Z3_OP_UNINTERPRETED:
+                    consts[x.decl().name()] = x
+                stack.extend(x.children())
+        for a in s2.assertions():
+            collect(a)
+        names = sorted(consts)
+        body = s2.to_smt2().replace('(check-sat)', '')
+        q = '(set-option :produce-models true)\n(set-logic ALL)\n' + body + '\n(check-sat)\n'
+        if names:
+            q += '(get-value (%s))\n' % ' '.join('|%s|' % n if not n.replace('_', 'a').isalnum() else n for n in names)
+        fd, path = tempfile.mkstemp(suffix='.smt2', dir=os.environ.get('VERIF_SCRATCH', '/var/tmp/verif-scratch'))
+        os.write(fd, q.encode())
+        os.close(fd)
+        try:
+            p = subprocess.run(['cvc5', '--tlimit=%d' % self.m.cvc5_timeout_ms, path], capture_output=True, text=True,
+                               timeout=self.m.cvc5_timeout_ms / 1000 + 10)
+            out = p.stdout
+        except Exception:
+            out = ''
+        finally:
+            os.remove(path)
+        first = out.strip().split('\n')[0] if out.strip() else ''
+        if first == 'unsat':
+            return z3.unsat
+        if '(error' in out:
+            return z3.unknown
+        if first != 'sat':
+            return z3.unknown
+        vals = {}
+        try:
+            for mm in re.finditer(r'\(\|?([^\s()|]+)\|?\s+((?:\(fp [^)]*\))|(?:#[bx][0-9a-fA-F]+)|true|false|\(_ [^)]*\))\)', out):
+                name, v = mm.group(1), mm.group(2)
+                c = consts.get(name)
+                if c is None:
+                    continue
+                vals[name] = (c, self._parse_smt_value(v, c))
+        except Exception:
+            return z3.unknown
+        self.ext_model = vals
+        return z3.sat
+
+    @staticmethod
+    def _parse_smt_value(v, c):
+        def bits(tok):
+            if tok.startswith('#b'):
+                return int(tok[2:], 2), len(tok) - 2
+            return int(tok[2:], 16), 4 * (len(tok) - 2)
+        if v == 'true':
+            return z3.BoolVal(True)
+        if v == 'false':
+            return z3.BoolVal(False)
+        if v.startswith('(fp'):
+            a, b, d = v[3:-1].split()
+            sv, _ = bits(a)
+            ev, eb = bits(b)
+            mv, mb = bits(d)
+            return z3.fpFP(z3.BitVecVal(sv, 1), z3.BitVecVal(ev, eb), z3.BitVecVal(mv, mb))
+        if v.startswith('(_ '):
+            parts = v[3:-1].split()
+            srt = c.sort()
+            if parts[0] == 'NaN':
+                return z3.fpNaN(srt)
+            if parts[0] == '+oo':
+                return z3.fpPlusInfinity(srt)
+            if parts[0] == '-oo':
+                return z3.fpMinusInfinity(srt)
+            if parts[0] == '+zero':
+                return z3.fpPlusZero(srt)
+            if parts[0] == '-zero':
+                return z3.fpMinusZero(srt)
+            if parts[0].startswith('bv'):
+                return z3.BitVecVal(int(parts[0][2:]), int(parts[1]))
+        val, n = bits(v)
+        return z3.BitVecVal(val, n)
 
     def branch(self, cond):
         """Decide a (possibly symbolic) boolean; forks the path when both sides are feasible."""
@@ -245,13 +346,20 @@ class Ctx:
                 return
             if r == z3.unknown:
                 raise Unsupported('solver returned unknown for require(%s)' % what)
-            mdl = self.solver.model()
+            mdl = self._model()
         else:
             r = self._check()
             if r == z3.unsat:
                 raise Infeasible()
-            mdl = self.solver.model()
+            if r == z3.unknown:
+                raise Unsupported('solver returned unknown for require(%s)' % what)
+            mdl = self._model()
         raise Violation(what, self.extract_inputs(mdl))
+
+    def _model(self):
+        if self.ext_model is not None:
+            return ExtModel(self.ext_model)
+        return self.solver.model()
 
     def fail(self, what):
         self.require(False, what)
@@ -260,7 +368,7 @@ class Ctx:
         r = self._check()
         if r != z3.sat:
             return None
-        return self.solver.model()
+        return self._model()
 
     def extract_inputs(self, mdl):
         out = {}
@@ -413,6 +521,17 @@ class Ctx:
             raise BoundExceeded('step budget %d exceeded' % self.step_budget)
 
 
+class ExtModel:
+    """Model read back from cvc5: substitution of constants by values."""
+
+    def __init__(self, vals):
+        self.subs = [(c, v) for (c, v) in vals.values()]
+
+    def eval(self, term, model_completion=True):
+        t = z3.substitute(term, *self.subs) if self.subs else term
+        return z3.simplify(t)
+
+
 def fp_to_py(v):
     if z3.is_fp_value(v) or z3.is_fp(v):
         v = z3.simplify(v)
@@ -458,6 +577,8 @@ class Machine:
         self.depth = 0
         self.const_cache = {}
         self.term_cache = {}   # (predicate, variable name) -> z3 term, shared by all paths
+        self.cvc5_fallback = True
+        self.cvc5_timeout_ms = 60000
 
     # ------------------------------------------------------------ literals
     def str_lit(self, s):
@@ -1560,6 +1681,15 @@ class Machine:
             return MapObj(v.kind, [[self.clone(k), self.clone(x)] for k, x in v.entries])
         if isinstance(v, HeapObj):
             return HeapObj([self.clone(x) for x in v.items])
+        if isinstance(v, Iter):
+            import copy
+            n = copy.copy(v)
+            for k, x in list(vars(n).items()):
+                if isinstance(x, list):
+                    setattr(n, k, list(x))
+                elif isinstance(x, Iter):
+                    setattr(n, k, self.clone(x))
+            return n
         raise Unsupported('clone of ' + type(v).__name__)
 
     # iterator protocol --------------------------------------------------
